@@ -21,8 +21,8 @@ def legal(content, boundary):
     return (b"--" + boundary) not in content
 
 
-def part(name="f", filename=None, content=b"", ctype=None):
-    return {"name": name, "filename": filename, "content": content, "ctype": ctype}
+def part(name="f", filename=None, content=b"", ctype=None, extra=()):
+    return {"name": name, "filename": filename, "content": content, "ctype": ctype, "extra": tuple(extra)}
 
 
 def corpus_bfs(tier):
@@ -50,6 +50,14 @@ def corpus_bfs(tier):
         ([part("é", None, "é".encode("latin-1"))], b, "latin-1", None, None),
         ([part("f", None, b"v1"), part("f", None, b"v2"), part("u", "fn", b"\r\n--", None)], b"--", "utf-8", b"p", None),
         ([part("u", "fn", b"-\r\n-", None), part("g", None, b"-")], b"-", "nonsense", None, None),
+        # boundaries made of the characters that mean something in a pattern ("." "+" "?" "(" ")" are legal boundary characters),
+        # with content lines that would be delimiters if the boundary were read as a pattern
+        ([part("u", "fn", b"\r\n--aXb\r\nrest\r\n--a_b--\r\n"), part("f", None, b"--aXb")], b"a.b", "utf-8", None, None),
+        ([part("u", "fn", b"x\r\n--aab\r\n--ab\r\ny"), part("f", None, b"\r\n--b--")], b"a+b", "utf-8", None, None),
+        ([part("u", "fn", b"1\r\n--b\r\n2\r\n--ab--\r\n3")], b"a?b", "utf-8", None, None),
+        ([part("u", "fn", b"\r\n--a\r\n--a--\r\n"), part("g", None, b"(a)")], b"(a)", "utf-8", b"--a", None),
+        # further header lines in a part: one name in two spellings, the same line twice, a name repeated after another one
+        ([part("u", "fn", b"1", None, [("X-Meta", "one"), ("x-meta", "two")]), part("f", None, b"2", None, [("X-A", "1"), ("X-B", "b"), ("X-A", "1"), ("x-a", "3")])], b, "utf-8", None, None),
         # names and filenames with characters that str.splitlines() (but not a multipart parser) treats as line breaks
         ([part("a\x0bb", "f\x0cn.txt", b"1"), part("n\u2028m", None, b"2"), part("p\x85q", "r\x1es\x1dt\u2029", b"3")], b, "utf-8", None, None),
     ]
